@@ -316,6 +316,7 @@ type Options struct {
 	BinPlain string
 	BinRace  string
 	OnlyPart string
+	RepoRoot string // directory the spine-go sources are compiled from (default /repo)
 }
 
 type finding struct{ prop, sig, what string }
@@ -481,6 +482,13 @@ func ParentMain(o Options) int {
 	}
 	os.RemoveAll(work)
 	return 0
+}
+
+func repoRoot(o Options) string {
+	if o.RepoRoot != "" {
+		return o.RepoRoot
+	}
+	return "/repo"
 }
 
 func anyRace(ck *Check) bool {
@@ -676,7 +684,7 @@ loop:
 		stderrText = string(b)
 	}
 	if p.Race {
-		reps := ParseRaceReports(stderrText, "/repo")
+		reps := ParseRaceReports(stderrText, repoRoot(o))
 		mu.Lock()
 		for _, r := range reps {
 			agg.RaceReports = append(agg.RaceReports, r)
